@@ -1954,7 +1954,7 @@ pub fn run(args: &[String]) -> i32 {
 		let plan: Vec<(usize, usize)> = if thorough { vec![(0, 5), (1, 4)] } else { vec![(0, 3)] };
 		for (base, depth) in plan {
 			let m = M { base, nslots: 2 };
-			let caps = Caps { max_depth: depth, wall: Duration::from_secs(if thorough { 500 } else { 35 }), max_states: 200_000 };
+			let caps = Caps { max_depth: depth, wall: Duration::from_secs(if thorough { 500 } else { 35 }), max_states: 200_000, min_depth: 2 };
 			let te = std::time::Instant::now();
 			let e = explore(&m, &tag_of(base), &caps);
 			cd_times.insert(format!("bfs_base{}", base), te.elapsed().as_secs_f64());
